@@ -238,6 +238,25 @@ Definition disclose_dict (role : string) (sid : N) (details : dict) (into : dict
   match dget details "authrole" with Some v => dset d2 (String.append role "_authrole") v | None => d2 end.
 
 Definition f_pub_ident := "publisher_identification".
+Definition f_ppt := "payload_passthru_mode".
+
+(** ** Payload passthru mode.  [ppt_scheme] counts only as a Go string
+    ([.(string)]); the four options are copied when they convert with
+    AsString (router/helpers.go pptOptionsToDetails, as repaired). *)
+Definition ppt_keys := ["ppt_scheme"; "ppt_serializer"; "ppt_cipher"; "ppt_keyid"].
+Definition ppt_active (opts : dict) : bool := nonempty (opt_gostring opts "ppt_scheme").
+Definition ppt_into (opts : dict) (details : dict) : dict :=
+  fold_left (fun d k => match dget opts k with
+                        | Some v => match as_string v with Some x => dset d k (vstr x) | None => d end
+                        | None => d
+                        end) ppt_keys details.
+(** the passthru part of EVENT details *)
+Definition ppt_part (opts : dict) : dict := if ppt_active opts then ppt_into opts [] else [].
+
+(** a PUBLISH with a valid topic that uses passthru mode without having
+    announced it is a protocol violation: the publisher is aborted *)
+Definition publish_aborts (cfg : config) (pub : session) (opts : dict) (topic : string) : bool :=
+  valid_uri (c_strict cfg) "" topic && ppt_active opts && negb (sess_feature pub "publisher" f_ppt).
 
 Definition event_details (topic : string) (send_topic disclose : bool) (pub : session) (recv : option session) : dict :=
   let d1 := if send_topic then [("topic", vuri topic)] else [] in
@@ -269,14 +288,14 @@ Definition pub_event (lookup : N -> option session) (now : N) (pub : session) (p
   let '(b, o) := acc in
   let '(s, send_topic) := sst in
   let evs := map (fun rs => (s_id rs, REvent (sub_id s) pubid
-                               (event_details topic send_topic disclose pub (Some rs)) args kw))
+                               (ppt_part opts ++ event_details topic send_topic disclose pub (Some rs)) args kw))
                  (sub_targets lookup (s_id pub) exclude_pub f s) in
   let b' :=
     match nget (b_hist b) (sub_id s) with
     | Some st =>
         if dhas opts "exclude" || dhas opts "eligible" then b
         else b_set_hist b (nset (b_hist b) (sub_id s)
-               (hist_push st (mkHEntry (sub_id s) pubid (event_details topic send_topic disclose pub None) args kw now)))
+               (hist_push st (mkHEntry (sub_id s) pubid (ppt_part opts ++ event_details topic send_topic disclose pub None) args kw now)))
     | None => b
     end in
   (b', o ++ evs).
@@ -288,6 +307,9 @@ Definition publish (cfg : config) (lookup : N -> option session) (now : N) (b : 
   let sid := s_id pub in
   if negb (valid_uri (c_strict cfg) "" topic) then
     (b, pg, if ack then [(sid, RError c_PUBLISH req [] e_invalid_uri [vstr "<text>"] [])] else [])
+  else if publish_aborts cfg pub opts topic then
+    (* the caller of [publish] (Realm.handle) ends the session *)
+    (b, pg, [(sid, RAbort [("message", vstr "<text>")] e_protocol_violation)])
   else
     let exclude_pub := match dget opts "exclude_me" with Some (VBool x) => x | _ => true end in
     let disclose := opt_bool opts "disclose_me" in
